@@ -13,6 +13,7 @@ from importlib import import_module
 import numpy as np
 
 from sim import pipeline as pl
+from sim import replicas as rp
 from sim import seams, workload as wl
 from sim.props.c04 import RANK
 from sim.util import digest, exc_signature, violation
@@ -34,7 +35,7 @@ def generate(rng, tier="quick"):
     tbl["cols"] = {new: v for new, v in zip(names, tbl["cols"].values())}
     fault_kinds = () if rng.chance(0.5) else tuple(rng.subset(("F1", "F2", "F3", "F5", "F6"), 0.4, at_least=1))
     wl_sids = wl.SIDS
-    cfg = wl.gen_config(rng, dict(tbl, cols={s: v for s, v in zip(wl_sids, tbl["cols"].values())}), max_ctx=3, max_tests=3, window_layout=rng.pick(("disjoint", "none")), fault_kinds=fault_kinds, max_faults=2)
+    cfg = wl.gen_config(rng, dict(tbl, cols={s: v for s, v in zip(wl_sids, tbl["cols"].values())}), max_ctx=3, max_tests=3, window_layout=rng.pick(("disjoint", "none")), fault_kinds=fault_kinds, max_faults=2, axis_streams_p=0)
     ren = dict(zip(wl_sids, names))
     for c in cfg["contexts"]:
         for e in c["entries"]:
@@ -132,7 +133,7 @@ def execute(scn):
     order = []
     for item in seen:
         rows = np.flatnonzero(np.asarray(item.subset_indexes))
-        for r in item.results:
+        for r in rp.results_of(item):
             key = (item.stream_id, r.package, r.test)
             if key not in model:
                 model[key] = {"flags": {}, "fn": r.function}
